@@ -520,6 +520,7 @@ def build_op_problem(case, counter):
     pb.retain = case["lkind"] in ("attr", "alias", "cont")
     pb.wrt = [t for t in (A0, d0) if t.requires_grad]
     M = None
+    m0 = None
     if case.get("useM"):
         m0 = torch.randn((n,), generator=g, dtype=DT).requires_grad_()
         Z = torch.zeros((n, n), dtype=DT)
@@ -527,6 +528,15 @@ def build_op_problem(case, counter):
         pb.roots += [("M", M), ("m0", m0)]
         pb.retain = True
         pb.wrt.append(m0)
+    fresh_m = bool(case.get("freshM")) and M is not None
+
+    def mkM():
+        # freshM: a new operator object for M on every call (the normal idiom when M depends on parameters) - anything the
+        # library keeps per operator *object* then grows with the number of calls
+        if not fresh_m:
+            return M
+        import xitorch
+        return xitorch.LinearOperator.m(torch.diag_embed(2.0 + m0 * m0), is_hermitian=True)
     maxiter = int(case.get("maxiter", 4))
     ncols = int(case.get("ncols", 1))
 
@@ -552,14 +562,14 @@ def build_op_problem(case, counter):
                 kw = {"max_niter": maxiter}
             elif method == "broyden1":
                 kw = {"maxiter": maxiter}
-            return (linalg.solve(mkA(), B, E=E, M=(M if E is not None else None), method=method, **kw),)
+            return (linalg.solve(mkA(), B, E=E, M=(mkM() if E is not None else None), method=method, **kw),)
     else:
         neig = int(case.get("neig", 1))
         mode = case.get("mode", "lowest")
 
         def forward():
             kw = {"max_niter": maxiter} if method == "davidson" else {}
-            evals, evecs = linalg.symeig(mkA(), neig=neig, mode=mode, M=M, method=method, **kw)
+            evals, evecs = linalg.symeig(mkA(), neig=neig, mode=mode, M=mkM(), method=method, **kw)
             # eigenvector sign is irrelevant here: the same call is compared with itself only
             return (evals, evecs)
     pb.forward = forward
